@@ -68,37 +68,23 @@ Proof. exact sends_hold_no_lock. Qed.
 Print Assumptions C09_sends_hold_no_lock.
 
 (* ---------------------------------------------------------------------- *)
-(* Lockset.  Full strength ([lockset_holds]: no pair of operations allowed to overlap has an unprotected
-   conflicting pair of accesses) is REFUTED by the faithful model; the failing class is spelled out in
-   Model/LocksKnown.v (one key per operation pair and field) and the statement holds exactly outside it. *)
+(* Lockset.  History: on the unrepaired library the full-strength statement was REFUTED (109 recorded keys:
+   LastSeen under the session read lock, Parse's onlineTransition with no lock, print functions without row
+   locks, HostList, DHCP offer accessors, unsynchronised `closed` flags, icmp6 closeChan swap, ...).  The
+   round-2 repairs of /repo removed every root cause; the model follows the repaired code, the recorded class
+   (Model/LocksKnown.v) is EMPTY and the statement holds at full strength. *)
 
-Theorem C09_lockset_refuted : exists a b f, concurrent_allowed a b = true /\ racyb a b f = true.
-Proof. exact lockset_refuted. Qed.
-Print Assumptions C09_lockset_refuted.
+(* no pair of operations allowed to overlap has an unprotected conflicting pair of accesses *)
+Theorem C09_lockset_holds : forall a b f, concurrent_allowed a b = true -> racyb a b f = false.
+Proof. exact lockset_full. Qed.
+Print Assumptions C09_lockset_holds.
 
-(* the refutation as an execution: one Close about to write, another about to read Session.closed *)
-Theorem C09_race_state_reachable :
-  reachable op template race_init race_witness /\ race_stateb race_witness 0 1 = true.
-Proof. exact race_state_reachable. Qed.
-Print Assumptions C09_race_state_reachable.
-
-Theorem C09_lockset_partial : forall a b f,
-  concurrent_allowed a b = true -> known_C09 (race_key a b f) = false -> racyb a b f = false.
-Proof. exact lockset_partial. Qed.
-Print Assumptions C09_lockset_partial.
-
-(* the recorded class contains nothing else: every recorded race key is an unprotected conflict of the model *)
-Theorem C09_lockset_known_exact : forall a b f,
-  known_C09 (race_key a b f) = true -> concurrent_allowed a b = true /\ racyb a b f = true.
-Proof. exact lockset_known_are_real. Qed.
-Print Assumptions C09_lockset_known_exact.
-
-Example C09_lockset_partial_nonvacuous :
+Example C09_lockset_nonvacuous :
   concurrent_allowed Capture IsCaptured = true /\ known_C09 (race_key Capture IsCaptured FMacCaptured) = false /\
   existsb (fun a => existsb (fun b => conflictb a b) (taccs op [] (flat op (template IsCaptured))))
           (taccs op [] (flat op (template Capture))) = true.
 Proof. exact lockset_partial_nonvacuous. Qed.
-Print Assumptions C09_lockset_partial_nonvacuous.
+Print Assumptions C09_lockset_nonvacuous.
 
 (* THE GENERAL LOCKSET LEMMA (any operation table with lock-ordered, balanced templates): a data race of the
    model — two distinct threads about to access one location, one of them writing — in ANY reachable state
@@ -117,44 +103,40 @@ Theorem C09_lockset : forall (op : Type) (template : op -> tmpl op) (rk : lock -
 Proof. exact lockset_sound. Qed.
 Print Assumptions C09_lockset.
 
-(* On the transcribed table: start any multiset of operations that respects the pattern (pairwise allowed to
-   overlap), on any rows; in every state of every interleaving every data race of the model is one of the
-   recorded (operation pair, field) keys — so every other pair of operations is data-race free in the model. *)
-Theorem C09_model_races_are_known : forall (l : list (op * list nat)) s,
+(* DATA-RACE FREEDOM OF THE MODEL.  Start any multiset of operations that respects the pattern (pairwise
+   allowed to overlap: one packet-loop operation at a time, one instance of each session goroutine), on any
+   rows: in no state of any interleaving are two threads about to make conflicting accesses to one location. *)
+Theorem C09_model_data_race_free : forall (l : list (op * list nat)) s,
   tops_ok (init op template l) ->
   reachable op template (init op template l) s ->
   forall i j ti tj x w1 w2, i <> j ->
     nth_error (threads op s) i = Some ti -> nth_error (threads op s) j = Some tj ->
-    LocksSound.next_access op ti = Some (x, w1) -> LocksSound.next_access op tj = Some (x, w2) -> w1 || w2 = true ->
-    known_C09 (race_key (top op ti) (top op tj) (fst x)) = true.
-Proof. exact model_races_are_exactly_the_known_ones. Qed.
-Print Assumptions C09_model_races_are_known.
+    LocksSound.next_access op ti = Some (x, w1) -> LocksSound.next_access op tj = Some (x, w2) ->
+    w1 || w2 = false.
+Proof. exact model_data_race_free. Qed.
+Print Assumptions C09_model_data_race_free.
 
-Example C09_known_race_instance :
-  tops_ok race_init /\ known_C09 (race_key SessClose SessClose FSessClosed) = true.
-Proof. exact known_race_instance. Qed.
-Print Assumptions C09_known_race_instance.
+Example C09_pattern_start : tops_ok free_init.
+Proof. exact pattern_start. Qed.
+Print Assumptions C09_pattern_start.
 
 (* ---------------------------------------------------------------------- *)
-(* Channels: no send on / close of a closed channel.  REFUTED (Close vs the notification senders, Close vs
-   Close, and the handlers' Close); exact outside the recorded panic keys. *)
+(* Channels: no send on / close of a closed channel.  History: REFUTED on the unrepaired library (Close vs the
+   notification senders, Close vs Close, the handlers' Close, icmp6 RA vs Close).  After the repairs every close
+   follows an atomic test-and-set of the channel's `closed` flag under a lock and every send is a non-blocking
+   send skipped once that flag is set: the predictions are empty. *)
 
-Theorem C09_no_send_on_closed_refuted :
-  reachable op template soc_init soc_witness /\ panicked op soc_witness = true.
-Proof. exact send_on_closed_refuted. Qed.
-Print Assumptions C09_no_send_on_closed_refuted.
-
-Theorem C09_double_close_refuted :
-  reachable op template dc_init dc_witness /\ panicked op dc_witness = true.
-Proof. exact double_close_refuted. Qed.
-Print Assumptions C09_double_close_refuted.
-
-Theorem C09_no_send_on_closed_partial : forall a b,
-  known_C09 ("panic:" ++ pair_name a b ++ ":send-on-closed-channel") = false ->
-  known_C09 ("panic:" ++ pair_name a b ++ ":close-of-closed-channel") = false ->
+Theorem C09_no_send_on_closed : forall a b, concurrent_allowed a b = true ->
   predicted_send_on_closed a b = false /\ predicted_double_close a b = false.
-Proof. exact no_send_on_closed_partial. Qed.
-Print Assumptions C09_no_send_on_closed_partial.
+Proof. exact no_send_on_closed_full. Qed.
+Print Assumptions C09_no_send_on_closed.
+
+Theorem C09_closes_are_once_guarded :
+  forallb (fun o => forallb (fun c =>
+     negb (closes op (template o) c) || close_after_once op (template o) c (flag_of_chan c)) all_chans_l) all_ops = true
+  /\ forallb (fun o => forallb (fun c => negb (sends op (template o) c)) all_chans_l) all_ops = true.
+Proof. exact closes_are_once_guarded. Qed.
+Print Assumptions C09_closes_are_once_guarded.
 
 (* in the semantics a step panics only on a send to / close of a channel that is already closed *)
 Theorem C09_panic_needs_closed_channel : forall s i s',
@@ -182,7 +164,7 @@ Theorem C09_closers_establish :
   forallb (fun o =>
     match stop_chan o with Some c => closes op (template (closer o)) c | None => true end &&
     match stop_flag o with
-    | Some f => existsb (fun a => match a with TSetFlag f' => field_eqb f f' | _ => false end) (flat op (template (closer o)))
+    | Some f => existsb (fun a => match a with TSetFlag f' | TOnce f' => field_eqb f f' | _ => false end) (flat op (template (closer o)))
     | None => true
     end) loops = true.
 Proof. exact closers_establish. Qed.
